@@ -1204,8 +1204,26 @@ fn c12(rng: &mut Rng, thorough: bool, _hints: &[Vec<String>], rep: &mut Report) 
             _ => byn!(i128, 128),
         }
     }
-    // extreme rates for gain_log2
+    // extreme rates: gain() = R^N exactly where it fits (R = 2^32 is the documented largest rate change)
     for rate in [u32::MAX, u32::MAX - 1, 1 << 31, (1 << 31) - 1, 65535, 65536] {
+        macro_rules! gain_at {
+            ($t:ty, $nn:expr) => {{
+                let ge = (rate as u128 + 1).pow($nn);
+                if ge < (1u128 << (<$t>::BITS - 1)) {
+                    let c = Cic::<$t, $nn>::new(rate);
+                    let g = guard(|| c.gain());
+                    if g.map(|v| v as i128) != Some(ge as i128) {
+                        rep.violation("cic-gain", "gain() = R^N (fits, must not panic)", &format!("Cic::<{}, {}>::new({}).gain()", stringify!($t), $nn, rate), &ge.to_string(), &format!("{:?} (None = PANIC)", g));
+                    }
+                    rep.count("cic-gain-extreme", 1);
+                }
+            }};
+        }
+        gain_at!(i64, 1);
+        gain_at!(i128, 1);
+        gain_at!(i128, 2);
+        gain_at!(i128, 3);
+        gain_at!(i64, 0);
         let c = Cic::<i128, 3>::new(rate);
         let gl = c.gain_log2();
         let ge = (rate as u128 + 1).pow(3);
@@ -1645,6 +1663,33 @@ fn c03(rng: &mut Rng, thorough: bool, _hints: &[Vec<String>], rep: &mut Report) 
             }
         }
         rep.count("biquad-float-steps", 800);
+        rep.distinct += 1;
+    }
+    // DF2T with limits that are actually reached: coefficients are multiples of 1/4, inputs small integers, so every
+    // intermediate is a dyadic rational that f64 holds exactly for the 10 steps of the run - no tolerance at all
+    for _ in 0..(n / 10) {
+        let q = |rng: &mut Rng, m: i64| rng.range(-m, m) as f64 / 4.0;
+        let c = [q(rng, 8), q(rng, 8), q(rng, 8), q(rng, 7), q(rng, 4)];
+        let lim = 1.0 + rng.below(6) as f64;
+        let mut bq = idsp::iir::Biquad::<f64>::from(c);
+        bq.set_min(-lim);
+        bq.set_max(lim);
+        // summing-junction offset u: DF2T at rest is the state (u, u)
+        let u = if rng.chance(1, 2) { 0.0 } else { q(rng, 8) };
+        bq.set_u(u);
+        let (mut s4, mut s2) = ([0.0f64; 4], [u; 2]);
+        let xs: Vec<f64> = (0..10).map(|j| if j < 3 || rng.chance(1, 2) { rng.range(-12, 12) as f64 } else { 0.0 }).collect();
+        let mut hit = false;
+        for (j, x) in xs.iter().enumerate() {
+            let y4 = bq.update(&mut s4, *x);
+            let y2 = bq.update(&mut s2, *x);
+            hit |= y4.abs() == lim;
+            if y4 != y2 {
+                rep.violation("biquad-df2t-limits", "DF2T from rest reproduces the clamped DF1 recurrence sample by sample (exact dyadic arithmetic, limits reached)", &format!("Biquad<f64> ba={:?} u={} limits +-{} inputs {:?} step {}", c, u, lim, xs, j), &y4.to_string(), &y2.to_string());
+                break;
+            }
+        }
+        rep.count(if hit { "biquad-df2t-limits[limit reached]" } else { "biquad-df2t-limits[inside]" }, 10);
         rep.distinct += 1;
     }
     rep.sample("Biquad<i8> with near-full-scale coefficients: b0=b1=a1=-128, x0=x1=y1=-128".into());
@@ -2512,6 +2557,9 @@ fn c07(rng: &mut Rng, thorough: bool, _hints: &[Vec<String>], rep: &mut Report) 
         // settling time (inside the window in which the estimates must "stay there")
         let cross = if c % 2 == 0 { n / 2 } else { n + 1000 };
         let t0 = ((i32::MAX as i64) - cross * (1 << dt2) + (seeds_ref[c as usize] % 500) as i64 * (1 << dt2)) & !((1i64 << dt2) - 1);
+        // a quarter of the runs: the offset is chosen so that one reference edge falls EXACTLY on the wrap point
+        // (timestamp i32::MIN), after the stated settling time
+        let off = if c % 4 == 1 { ((1i64 << 31) - t0).rem_euclid(p) } else { off };
         let inp = format!("RPLL::new({}) shift_frequency={} shift_phase={} period={} offset={} t0={}", dt2, sf, sp, p, off, t0);
         l.count += 1;
         match rpll_run(dt2, sf, sp, p, off, t0, 2000, None) {
@@ -2858,6 +2906,31 @@ fn c09(rng: &mut Rng, thorough: bool, _hints: &[Vec<String>], rep: &mut Report) 
                 }
             }
             rep.count("coeff-quantize", 5);
+            // Q2.62: v * 2^62 is exact in f64; at or above 2^52 it is already an integer and must come back unchanged
+            let a0i = 1.0 / a0;
+            if let Some(b64) = guard(|| idsp::iir::Biquad::<i64>::from(&ba)) {
+                for j in 0..5 {
+                    let v = flat[j] * a0i * 4611686018427387904.0;
+                    let got = b64.ba()[j];
+                    let bad = if v.abs() >= 4503599627370496.0 { v.abs() < 9.2e18 && got != v as i64 } else { (got as f64 - v).abs() > 0.5 };
+                    if bad {
+                        rep.violation("coeff-quantize", "divide by a0, round each coefficient to the nearest representable value (Q2.62)", &format!("{} coefficient {}", inp, j), &format!("{:.1}", v), &got.to_string());
+                        break;
+                    }
+                }
+                rep.count("coeff-quantize-i64", 5);
+            }
+            // the serialisable representation: BiquadRepr::Ba normalises by a0 exactly like Biquad::from
+            {
+                use idsp::iir::{Ba, BiquadRepr};
+                let mut r = Ba::<f64>::default();
+                *r.ba = ba;
+                let via = guard(|| BiquadRepr::<f64, i32>::Ba(r).build::<f64>(1.0, 1.0, 1.0));
+                if via.as_ref().map(|b| *b.ba()) != Some(*bi.ba()) {
+                    rep.violation("coeff-quantize", "BiquadRepr::Ba divides by a0 and rounds like Biquad::from (invariant under a common factor)", &format!("{} as BiquadRepr::Ba (a0 = {})", inp, a0), &format!("{:?}", bi.ba()), &format!("{:?}", via.map(|b| *b.ba())));
+                }
+                rep.count("coeff-quantize-repr", 1);
+            }
         }
         rep.distinct += 1;
     }
@@ -2874,7 +2947,17 @@ fn c11(rng: &mut Rng, thorough: bool, hints: &[Vec<String>], rep: &mut Report) {
         let theta = rng.below(1 << 20) as f64 / (1 << 20) as f64 * std::f64::consts::TAU;
         let fr = 0.05 + 0.4 * (rng.below(1 << 16) as f64 / 65536.0);
         let k = match i % 3 { 0 => 1i64 << 20, 1 => 1i64 << 25, _ => rng.range(1 << 20, 1 << 25) } as f64;
-        let p0 = rng.next() as i32;
+        let mut p0 = rng.next() as i32;
+        let mut fr = fr;
+        if i % 6 == 5 {
+            // the LO visits the same 2^j angles (incl. 0, +-pi/2, pi) again and again
+            let j = 2 + rng.below(4) as u32;
+            let lo = ((0.05 * (1u32 << j) as f64).ceil() as u64).max(1);
+            let hi = (0.45 * (1u32 << j) as f64).floor() as u64;
+            let m = (lo + rng.below(hi - lo + 1)) | if j > 2 { 0 } else { 0 };
+            fr = m as f64 / (1u32 << j) as f64;
+            p0 = ((rng.below(1 << j) as u32) << (32 - j)) as i32;
+        }
         cfgs.push((a, theta, fr, k, p0));
     }
     let cr = &cfgs;
